@@ -985,7 +985,12 @@ func TestVerifC12Sched(t *testing.T) {
 	defer out.Close()
 	dontRecover = false
 	log.DefaultLogger.Out = log.NopOutput{}
+	// which shutdown handshake the tree under test has (from the regenerated skeleton): the model
+	// variant the executions are compared with
 	variant := "f"
+	if v := os.Getenv("VERIF_C12_VARIANT"); v == "u" {
+		variant = "u"
+	}
 	runOp := func(op string) {
 		scn, sched, ok := c12ParseScn(strings.Fields(op))
 		if !ok {
@@ -1003,7 +1008,7 @@ func TestVerifC12Sched(t *testing.T) {
 		return
 	}
 	for _, op := range c12Corpus {
-		runOp(op)
+		runOp(strings.Replace(op, "C12 run f ", "C12 run "+variant+" ", 1))
 		out.Stat("sched.corpus")
 	}
 	n := vh.N(400)
@@ -1126,8 +1131,8 @@ func c12RunFree(out *vh.Out, seed uint64) {
 		time.Sleep(closeDelay)
 		q.Close()
 	})
-	if !cg.Wait(8 * time.Second) {
-		out.Violation("C12/free-run/close-hang", op, "Queue.Close did not return within 8s")
+	if !cg.Wait(15 * time.Second) {
+		out.Violation("C12/free-run/close-hang", op, "Queue.Close did not return within 15s")
 		return
 	}
 	tgt.mu.Lock()
@@ -1138,8 +1143,8 @@ func c12RunFree(out *vh.Out, seed uint64) {
 	}
 	tgt.mu.Unlock()
 	for _, g := range gs {
-		if !g.Wait(8 * time.Second) {
-			out.Violation("C12/free-run/goroutine-stuck", op, "a producer's Commit did not return within 8s of the shutdown")
+		if !g.Wait(15 * time.Second) {
+			out.Violation("C12/free-run/goroutine-stuck", op, "a producer's Commit did not return within 15s of the shutdown")
 			return
 		}
 	}
